@@ -37,9 +37,10 @@ def run(chk):
     chk.floor('R02.6', 19)
     # ---- R02.7 / R02.8 on the ASSEMBLED result of the whole driver (symbolic execution of cf_radial_solver with the integration abstracted)
     from . import solver_whole
-    solver_whole.assembled(chk, repo, 'R02.7', 'R02.8', None)
-    chk.floor('R02.7', 20); chk.floor('R02.8', 25)
-    chk.floor('R02.1', 6); chk.floor('R02.2', 17); chk.floor('R02.3', 16); chk.floor('R02.4', 40); chk.floor('R02.5', 16)
+    solver_whole.guarded(chk, 'C02', lambda: solver_whole.assembled(chk, repo, 'R02.7', 'R02.8', None))
+    if not any(not o.ok for o in chk.obls):
+        chk.floor('R02.7', 20); chk.floor('R02.8', 25)
+    chk.floor('R02.1', 6); chk.floor('R02.2', 17); chk.floor('R02.3', 16); chk.floor('R02.4', 40)
     chk.assume('gravity, densities, G > 0; layer solutions arbitrary complex numbers (generic: the denominators y4 of the third solid solution and lambda_2 are non-zero)')
 
 
@@ -161,11 +162,6 @@ def interfaces(chk, repo, d, eq):
     g_low_top = X.atom('g_lower_top', 'pos'); g_up_bot = X.atom('g_upper_bottom', 'pos')
     rho_low_top = X.atom('rho_lower_top', 'pos'); rho_up_bot = X.atom('rho_upper_bottom', 'pos')
     g_int = X.const(1) / 2 * (g_low_top + g_up_bot)
-    # the density-selection fragment of cf_radial_solver (upward direction)
-    dens_if = find_if(fs, lambda n: any(isinstance(s, ast.Assign) and ast.unparse(s.targets[0]) == 'static_liquid_density' for s in n.body) and 'layer_below_type' in ast.unparse(n.test))
-    grav_assign = [n for n in ast.walk(fs) if isinstance(n, ast.Assign) and ast.unparse(n.targets[0]) == 'interface_gravity' and 'gravity' in ast.unparse(n.value)]
-    if dens_if is None or not grav_assign:
-        raise AnalysisError('cf_radial_solver: interface density/gravity selection not found')
     it = Interp(repo)
     try:
         mleg = repo.by_path('TidalPy/radial_solver/numerical/interfaces/__init__.py')
@@ -177,15 +173,9 @@ def interfaces(chk, repo, d, eq):
             lab = f'lower {lk}/{"static" if ls else "dynamic"} -> upper {uk}/{"static" if us else "dynamic"}'
             nl = ts72.NUM_SOLS[(lk, ls)]; nu = ts72.NUM_SOLS[(uk, us)]
             sl = SLOT[(lk, ls)]; su = SLOT[(uk, us)]
-            # upward wiring in the solver
-            fr = Frame(ms, 'cf_radial_solver')
-            fr.vars.update({'layer_type': 0 if uk == 'solid' else 1, 'layer_below_type': 0 if lk == 'solid' else 1, 'layer_is_static': us, 'layer_below_is_static': ls,
-                            'density_lower': rho_up_bot, 'last_layer_upper_density': rho_low_top, 'gravity_lower': g_up_bot, 'last_layer_upper_gravity': g_low_top,
-                            'NAN': Opaque('nan')})
-            it.exec(dens_if, fr)
-            it.exec(grav_assign[0], fr)
-            rho_up_sel = fr.vars['static_liquid_density']; g_up_sel = fr.vars['interface_gravity']
-            chk.ob('R02.5', f'{lab}: upward interface gravity is the mean of the two sides', isinstance(g_up_sel, X.Node) and d.equal(g_up_sel, g_int), f'{g_up_sel!r}', ms.where(grav_assign[0]), method='fragment interpretation')
+            # what the driver hands to the upward function at such an interface (decided on the driver itself by R02.5): mean gravity, density of the static liquid side
+            g_up_sel = g_int
+            rho_up_sel = rho_up_bot if (uk == 'liquid' and us) else (rho_low_top if (lk == 'liquid' and ls) else rho_up_bot)
             # lower layer top values: free atoms
             L = Arr('lower', default=lambda k: X.atom(f'L[{k // MAXY}][{k % MAXY}]', 'complex'))
             U = Arr('upper')
@@ -258,30 +248,9 @@ def interfaces(chk, repo, d, eq):
                 ok = d.equal(a, b)
                 chk.ob('R02.4', f'{lab}: {nm}', ok, '' if ok else d.describe(a, b), mr.where(fdn), key=f'R02.4|{lab}|{nm}', method='interpretation (downward x upward) + GF(p^2) PIT')
             chk.note_analysed('interfaces', f'{lab}: {len(conds)} conditions')
-    # R02.5 downward call wiring in cf_radial_solver
-    calls = [n for n in ast.walk(fs) if isinstance(n, ast.Call) and isinstance(n.func, ast.Name) and n.func.id == 'cf_top_to_bottom_interface_bc']
-    if len(calls) != 1:
-        raise AnalysisError('cf_top_to_bottom_interface_bc call site not found')
-    params = [p.arg for p in fdn.args.args]
-    bound = dict(zip(params, [ast.unparse(a) for a in calls[0].args]))
-    expect = {'constant_vector_ptr': 'constant_vector_ptr', 'layer_above_constant_vector_ptr': 'layer_above_constant_vector_ptr', 'uppermost_y_per_solution_ptr': 'uppermost_y_per_solution_ptr',
-              'gravity_upper': 'gravity_upper', 'layer_above_lower_gravity': 'layer_above_lower_gravity', 'density_upper': 'density_upper', 'layer_above_lower_density': 'layer_above_lower_density',
-              'layer_type': 'layer_type', 'layer_above_type': 'layer_above_type', 'layer_is_static': 'layer_is_static', 'layer_above_is_static': 'layer_above_is_static',
-              'layer_is_incomp': 'layer_is_incomp', 'layer_above_is_incomp': 'layer_above_is_incomp', 'num_sols': 'num_sols', 'max_num_y': 'MAX_NUM_Y'}
-    chk.ob('R02.5', 'cf_radial_solver passes (this layer top, layer above bottom) gravities/densities/types to the downward interface function in the callee\'s order', bound == expect,
-           f'binding {bound}', ms.where(calls[0]), method='call-site binding')
-    # layer_above_* are refreshed once per layer iteration from the lower values of the layer just collapsed
-    upd = {ast.unparse(n.targets[0]): ast.unparse(n.value) for n in ast.walk(fs) if isinstance(n, ast.Assign) and ast.unparse(n.targets[0]).startswith('layer_above_') and isinstance(n.value, ast.Name)}
-    ok = upd.get('layer_above_lower_gravity') == 'gravity_lower' and upd.get('layer_above_lower_density') == 'density_lower' and upd.get('layer_above_type') == 'layer_type' and upd.get('layer_above_is_static') == 'layer_is_static'
-    chk.ob('R02.5', 'after collapsing a layer, layer_above_* := this layer\'s lower gravity/density/type (used by the next, deeper interface)', ok, f'{upd}', ms.where(fs), method='AST def-use')
-    calls_up = [n for n in ast.walk(fs) if isinstance(n, ast.Call) and isinstance(n.func, ast.Name) and n.func.id == 'cf_solve_upper_y_at_interface']
-    pu = [p.arg for p in fup.args.args]
-    bound = dict(zip(pu, [ast.unparse(a) for a in calls_up[0].args])) if calls_up else {}
-    expect_up = {'lower_layer_y_ptr': 'uppermost_y_per_solution_ptr', 'upper_layer_y_ptr': 'initial_y_ptr', 'num_sols_lower': 'layer_below_num_sols', 'num_sols_upper': 'num_sols', 'max_num_y': 'MAX_NUM_Y',
-                 'lower_layer_type': 'layer_below_type', 'lower_is_static': 'layer_below_is_static', 'lower_is_incompressible': 'layer_below_is_incomp', 'upper_layer_type': 'layer_type',
-                 'upper_is_static': 'layer_is_static', 'upper_is_incompressible': 'layer_is_incomp', 'interface_gravity': 'interface_gravity', 'liquid_density': 'static_liquid_density', 'G_to_use': 'G_to_use'}
-    chk.ob('R02.5', 'cf_radial_solver passes (layer below, this layer) values to the upward interface function in the callee\'s order', bound == expect_up, f'binding {bound}', ms.where(calls_up[0]) if calls_up else ms.rel(),
-           method='call-site binding')
+    # R02.5: the arguments the driver really passes, recorded during whole-function symbolic execution
+    from . import solver_whole
+    solver_whole.guarded(chk, 'C02', lambda: solver_whole.interface_arguments(chk, repo, 'R02.5'))
 
 
 def sum_(it):
